@@ -1918,16 +1918,10 @@ class Scheduler:
         if job.call_hash:
             assert job.was_cached
 
-            # Need to maintain the subtree_tasks if this was a cache hit.
-            check_valid = job.get_option(
-                "check_valid", CacheCheckValid.FULL, as_type=CacheCheckValid
-            )
-            if check_valid == CacheCheckValid.FULL:
-                job.calc_subtree_tasks()
-            else:
-                # If we did ultimate reduction caching, then we need to query the
-                # backend to determine subtree tasks.
-                job.subtree_tasks = self._get_subtree_tasks(job)
+            # Need to maintain the subtree_tasks if this was a cache hit. The call_hash is only
+            # known for CSE and ultimate reduction hits; such a job has no child jobs of its own,
+            # so the subtree tasks of its CallNode must come from the backend.
+            job.subtree_tasks = {job.task} | self._get_subtree_tasks(job)
         else:
             # Ignore failed child jobs, which have no call_hash.
             child_call_hashes = [
